@@ -1,6 +1,7 @@
 package main
 
 import (
+	"os"
 	"sort"
 	"fmt"
 	"go/constant"
@@ -270,6 +271,9 @@ func (e *fnEnc) selectFwd(heapName, addr string) string {
 			return si.val
 		}
 		if !e.distinctAddrs(si.addr, addr) {
+			if os.Getenv("GOCV_DBG_FWD") != "" {
+				fmt.Fprintf(os.Stderr, "FWD-STOP %s | %s\n", si.addr, addr)
+			}
 			break
 		}
 		h = si.prev
@@ -297,6 +301,33 @@ func (e *fnEnc) olderThanAlloc(name, alloc string) bool {
 }
 
 func (e *fnEnc) distinctSx(a, b *sx) bool {
+	// one address inside a fresh allocation, the other below a reference that was read out of
+	// a memory older than that allocation
+	{
+		ra, rb := a, b
+		for ra.list != nil && (ra.head() == "idx" || ra.head() == "fld") {
+			ra = ra.list[1]
+		}
+		for rb.list != nil && (rb.head() == "idx" || rb.head() == "fld") {
+			rb = rb.list[1]
+		}
+		if ra.list == nil && e.allocNames[ra.atom] && (rb.list != nil || e.loadDefs[rb.atom] != "") && e.loadedBeforeAlloc(rb, ra.atom) {
+			return true
+		}
+		if rb.list == nil && e.allocNames[rb.atom] && (ra.list != nil || e.loadDefs[ra.atom] != "") && e.loadedBeforeAlloc(ra, rb.atom) {
+			return true
+		}
+		// addresses below two different objects: two allocations of this function, or an
+		// allocation and something that was declared before it was made
+		if ra.list == nil && rb.list == nil && ra.atom != rb.atom && (a.list != nil || b.list != nil) {
+			if e.allocNames[ra.atom] && e.allocNames[rb.atom] {
+				return true
+			}
+			if e.olderThanAlloc(ra.atom, rb.atom) || e.olderThanAlloc(rb.atom, ra.atom) {
+				return true
+			}
+		}
+	}
 	if a.list == nil && b.list == nil {
 		if a.atom == b.atom {
 			return false
@@ -343,6 +374,12 @@ func (e *fnEnc) distinctSx(a, b *sx) bool {
 			}
 			return e.olderThanAlloc(ra.atom, rb.atom) || e.olderThanAlloc(rb.atom, ra.atom)
 		}
+		if ra.list != nil && rb.list == nil && e.allocNames[rb.atom] {
+			return e.loadedBeforeAlloc(ra, rb.atom)
+		}
+		if rb.list != nil && ra.list == nil && e.allocNames[ra.atom] {
+			return e.loadedBeforeAlloc(rb, ra.atom)
+		}
 	}
 	return false
 }
@@ -374,7 +411,48 @@ func (e *fnEnc) rootAtomDiffers(a *sx, name string) bool {
 	for a.list != nil && (a.head() == "idx" || a.head() == "fld") {
 		a = a.list[1]
 	}
-	return a.list == nil && a.atom != name && (e.allocNames[a.atom] || e.olderThanAlloc(a.atom, name))
+	if a.list != nil {
+		return e.loadedBeforeAlloc(a, name)
+	}
+	return a.atom != name && (e.allocNames[a.atom] || e.olderThanAlloc(a.atom, name))
+}
+
+// loadedBeforeAlloc: r is a reference read out of a memory (or the base of a slice read out of
+// one) that was created before the allocation `alloc` was made. A memory only holds references
+// to objects allocated by the time it came into being, so r is not (inside) the new object.
+func (e *fnEnc) loadedBeforeAlloc(r *sx, alloc string) bool {
+	ao, isAlloc := e.allocOrder[alloc]
+	if !isAlloc {
+		return false
+	}
+	if r.head() == "s_base" && len(r.list) == 2 {
+		r = r.list[1]
+	}
+	if r.list == nil {
+		// a name defined as a load
+		if d, ok := e.loadDefs[r.atom]; ok {
+			if fs, err := parseSexps(d); err == nil && len(fs) == 1 {
+				r = fs[0]
+			}
+		}
+	}
+	if r.head() != "select" || len(r.list) != 3 || r.list[1].list != nil {
+		return false
+	}
+	h := r.list[1].atom
+	if strings.HasPrefix(h, "H_e0_") {
+		return true // the memory on function entry
+	}
+	if !strings.HasPrefix(h, "H") {
+		return false
+	}
+	i := strings.LastIndexByte(h, '_')
+	if i < 0 || !isLiteralAtom(h[i+1:]) || strings.HasPrefix(h[i+1:], "#") {
+		return false
+	}
+	n := 0
+	fmt.Sscanf(h[i+1:], "%d", &n)
+	return n > 0 && n < ao
 }
 
 func isLiteralAtom(s string) bool {
